@@ -54,6 +54,8 @@ fn leaves(ks: &Keys) -> Vec<P> {
         Policy::Older(2),
         Policy::Trivial,
         Policy::Unsatisfiable(FailEntropy::ZERO),
+        // (the hidden fail node's CMR commits to the entropy: a zero entropy cannot tell whether it is carried through)
+        Policy::Unsatisfiable(FailEntropy::from_byte_array([0x5a; 64])),
     ]
 }
 
@@ -222,7 +224,56 @@ fn run(ctx: &Ctx, out: &mut Out) {
             }
         }
     }
+    leg_sorted_deep(ctx, out);
     let _ = Tier::Quick;
+}
+
+/// canonical sorting at nesting depth 3: every policy with at most 7 nodes over three ordered leaves
+/// (a threshold or conjunction whose children are themselves unsorted needs 7 nodes)
+fn leg_sorted_deep(ctx: &Ctx, out: &mut Out) {
+    let small = [Policy::After(1), Policy::After(5), Policy::After(9)];
+    let nmax = ctx.tier.pick(7, 8);
+    let mut memo: Vec<Vec<P>> = vec![vec![], small.to_vec()];
+    for n in 2..=nmax {
+        let mut v: Vec<P> = vec![];
+        if n >= 3 {
+            for a in 1..n - 1 {
+                let b = n - 1 - a;
+                for x in &memo[a] {
+                    for y in &memo[b] {
+                        v.push(Policy::And { left: Arc::new(x.clone()), right: Arc::new(y.clone()) });
+                        v.push(Policy::Or { left: Arc::new(x.clone()), right: Arc::new(y.clone()) });
+                        v.push(Policy::Threshold(1, vec![x.clone(), y.clone()]));
+                    }
+                }
+            }
+        }
+        if n >= 4 {
+            for a in 1..n - 2 {
+                for b in 1..n - 1 - a {
+                    let c = n - 1 - a - b;
+                    for x in &memo[a] {
+                        for y in &memo[b] {
+                            for z in &memo[c] {
+                                v.push(Policy::Threshold(2, vec![x.clone(), y.clone(), z.clone()]));
+                            }
+                        }
+                    }
+                }
+            }
+        }
+        memo.push(v);
+    }
+    for n in 6..=nmax {
+        for chunk in memo[n].chunks(256) {
+            if !ctx.mine() {
+                continue;
+            }
+            for p in chunk {
+                leg_sorted(ctx, out, p);
+            }
+        }
+    }
 }
 
 fn leg_satisfy(ctx: &Ctx, out: &mut Out, p: &P, ks: &Keys, built: &[(String, envs::Built)], sigs: &[[SchnorrSig; 2]], caches: &mut [HashMap<String, bool>]) {
